@@ -25,9 +25,13 @@ LEAN_TARGETS = ["LoguruModel.Props.C03"]
 AUDIT_FILE = "LoguruModel/Audit/C03.lean"
 DRIVER = "C03"
 RULE = ("(i) programs of 2-4 producer threads in 1-3 emulated processes (owner, pickled children) x 1-4 ops from "
-        "log/complete/remove over one enqueue handler, schedules = DFS with preemption bound + PRNG over every "
-        "queue/event/lock/_stopped access; (ii) real processes (fork, spawn, forkserver) N x M x K; (iii) asyncio "
-        "tasks with coroutine sinks and PRNG-chosen sleeps; non-trivial = schedule with >= 1 preemption and >= 2 "
+        "log/complete/remove over one enqueue handler, in 45 % of the programs with error paths (sink refusing some "
+        "messages, items the worker cannot un-pickle with an exception class drawn from a pool of 24, records that "
+        "cannot be pickled, get() calls that raise without consuming), schedules = DFS with preemption bound + PRNG "
+        "over every queue/event/lock/_stopped access; (ii) real processes (fork, spawn, forkserver, raw os.fork) "
+        "N x M x K, half of them with unloadable `extra` objects from owner and/or children; (iii) asyncio "
+        "tasks with coroutine sinks and PRNG-chosen sleeps, two loops, enqueue=True + coroutine sink; (iv) several "
+        "handlers on one logger; non-trivial = schedule with >= 1 preemption and >= 2 "
         "producers, or a real multi-process run with >= 2 processes; distinct by (program, schedule)")
 TRUSTED = [
     "multiprocessing.SimpleQueue is FIFO and atomic per put across processes; Event/Lock semantics (emulated by "
@@ -39,6 +43,27 @@ ASSUMPTIONS = ["stop() is called at most once per process (C02: stop_at_most_onc
 
 
 # ----------------------------------------------------------------------------- (i) scheduler stream
+def gen_family_program(rng, quick=True):
+    """programs aimed at state that survives from one call to the next inside ONE process: two or three threads of the same
+    process (the owner or one child), each a short run of log / complete in which complete() is as frequent as log"""
+    nthreads = rng.range(2, 3)
+    p = rng.choice([0, 0, 1])
+    procs = [p] * nthreads
+    if p != 0 or rng.chance(30):
+        procs[rng.below(nthreads)] = 0 if p != 0 else 1      # one thread of another process as a by-stander
+    threads = []
+    for t in range(nthreads):
+        n = rng.range(2, 4)
+        ops = [[rng.choice(["log", "complete"])] for _ in range(n)]
+        if not any(o[0] == "log" for o in ops):
+            ops[0] = ["log"]
+        if not any(o[0] == "complete" for o in ops):
+            ops[-1] = ["complete"]
+        threads.append(ops)
+    kinds = {str(q): rng.choice(["pickle", "fork"]) for q in sorted(set(procs)) if q != 0}
+    return {"procs": procs, "threads": threads, "kinds": kinds}
+
+
 def gen_program(rng, quick=True):
     nthreads = rng.range(2, 3 if quick else 4)
     procs = [0]
@@ -61,7 +86,41 @@ def gen_program(rng, quick=True):
     # how each child process got its logger: "pickle" = what a spawned child receives (Handler.__getstate__),
     # "fork" = the memory copy a raw os.fork() child inherits (every attribute verbatim, owner bookkeeping included)
     kinds = {str(p): rng.choice(["pickle", "fork"]) for p in sorted(set(procs)) if p != 0}
-    return {"procs": procs, "threads": threads, "kinds": kinds}
+    prog = {"procs": procs, "threads": threads, "kinds": kinds}
+    # error paths of the worker and of emit (round 5): some messages are refused by the sink (`sink.write` raises),
+    # some cannot be un-pickled by the worker (`queue.get()` consumes the item and raises - with ANY exception class
+    # un-pickling can raise), some records cannot be pickled at all (`queue.put` raises in the producer), and
+    # `queue.get()` may fail a few times without consuming anything
+    if rng.chance(45):
+        texts = ["t%d-%d" % (ti + 1, j) for ti, ops in enumerate(threads) for j, op in enumerate(ops) if op[0] == "log"]
+        rng.shuffle(texts)
+        fail, poison, putfail = [], [], []
+        for m in texts:
+            k = rng.below(10)
+            if k < 2:
+                fail.append(m)
+            elif k < 4:
+                poison.append(m)
+            elif k < 5:
+                putfail.append(m)
+        prog["fail"], prog["poison"], prog["putfail"] = sorted(fail), sorted(poison), sorted(putfail)
+        prog["poison_exc"] = rng.choice(sorted(POISON_EXCS))
+        prog["flaky"] = rng.choice([0, 0, 1, 2])
+        prog["catch"] = True if putfail else rng.chance(50)
+    return prog
+
+
+# exception classes a reader's un-pickling can raise: `queue.get()` runs arbitrary reconstruction code of the record's
+# `extra` objects (files that vanished, sockets, truncated nested pickles, ...) - the worker must survive every one
+POISON_EXCS = {"RuntimeError": RuntimeError, "OSError": OSError, "EOFError": EOFError,
+               "FileNotFoundError": FileNotFoundError, "ConnectionResetError": ConnectionResetError,
+               "PermissionError": PermissionError, "BrokenPipeError": BrokenPipeError, "TimeoutError": TimeoutError,
+               "UnpicklingError": pickle.UnpicklingError, "AttributeError": AttributeError, "KeyError": KeyError,
+               "ImportError": ImportError, "ModuleNotFoundError": ModuleNotFoundError, "TypeError": TypeError,
+               "ValueError": ValueError, "UnicodeDecodeError": (lambda msg: UnicodeDecodeError("utf8", b"x", 0, 1, msg)),
+               "MemoryError": MemoryError, "RecursionError": RecursionError, "StopIteration": StopIteration,
+               "AssertionError": AssertionError, "LookupError": LookupError, "ArithmeticError": ArithmeticError,
+               "BufferError": BufferError, "NotImplementedError": NotImplementedError}
 
 
 class Run:
@@ -76,6 +135,9 @@ class Run:
             logger = sched.make_logger()
             fail = set(prog.get("fail", ()))
             sched.FakeQueue.poison = frozenset(prog.get("poison", ()))
+            sched.FakeQueue.poison_exc = POISON_EXCS.get(prog.get("poison_exc"), RuntimeError)
+            sched.FakeQueue.putfail = frozenset(prog.get("putfail", ()))
+            sched.FakeQueue.flaky[0] = int(prog.get("flaky", 0))
             snk = sched.FailingSink("s0", lambda text: text in fail) if fail else sched.TracingSink("s0")
             hid = logger.add(snk, enqueue=True, context=sched.FakeContext(start_method=prog.get("start_method", "fork")),
                              format="{message}",
@@ -141,6 +203,9 @@ class Run:
             finally:
                 sched.CUR[0] = None
             sched.FakeQueue.poison = frozenset()
+            sched.FakeQueue.poison_exc = RuntimeError
+            sched.FakeQueue.putfail = frozenset()
+            sched.FakeQueue.flaky[0] = 0
             self.sched, self.sink, self.ops, self.stderr = s, snk, ops_log, err
         return self
 
@@ -160,16 +225,26 @@ def _hang_is_expected(run):
     return worker_done and bool(waiting) and all(last.get(n) in ("wait?", "acq") for n in blocked)
 
 
+def _err_note(prog):
+    if not any(prog.get(k) for k in ("fail", "poison", "putfail", "flaky")):
+        return ""
+    return (" [sink refuses %r; un-pickling raises %s for %r; put raises for %r; %d get() call(s) raise without consuming]"
+            % (prog.get("fail", []), prog.get("poison_exc", "RuntimeError"), prog.get("poison", []),
+               prog.get("putfail", []), prog.get("flaky", 0)))
+
+
 def monitors(run):
     s, prog = run.sched, run.program
     bad = []
     tr = s.trace
     if s.deadlock and not _hang_is_expected(run):
-        bad.append("deadlock: %r never finished" % (s.deadlock,))
+        bad.append("deadlock: %r never finished%s" % (s.deadlock, _err_note(prog)))
         return bad
     for tn, e in s.errors:
         bad.append("internal error in %s: %s: %s" % (tn, type(e).__name__, e))
     puts, sentinel_pos, wends, wbegins = [], None, {}, []
+    refused, unreadable = set(prog.get("fail", ())), set(prog.get("poison", ()))
+    dealt = {}          # message -> position at which the worker was done with it (written, refused or unreadable)
     for pos, (tn, kind, obj, val) in enumerate(tr):
         if kind == "put" and val.startswith("msg:"):
             puts.append((pos, val[4:]))
@@ -177,8 +252,13 @@ def monitors(run):
             sentinel_pos = pos
         elif kind == "wend":
             wends[val] = pos
+            dealt[val] = pos
         elif kind == "wbegin":
             wbegins.append((pos, val))
+            if val in refused:
+                dealt[val] = pos
+        elif kind == "get" and val.startswith("poison:"):
+            dealt[val[7:]] = pos
     items = run.sink.items
     # whole, exactly once
     if len(set(items)) != len(items):
@@ -186,15 +266,17 @@ def monitors(run):
     for it in items:
         if it not in [m for _, m in puts]:
             bad.append("sink received %r which no producer put" % (it,))
-    # order = put order (hence per producer order)
+    # order = put order (hence per producer order); a message the sink refuses or the worker cannot un-pickle is the
+    # only one its error costs
     before = [m for pos, m in puts if sentinel_pos is None or pos < sentinel_pos]
+    due = [m for m in before if m not in refused and m not in unreadable]
     hang = _hang_is_expected(run)
     if s.finished or (not s.deadlock and not s.errors) or hang:
-        if items != before[:len(items)]:
-            bad.append("sink order %r is not the put order %r" % (items, before))
-        if len(items) != len(before):
-            bad.append("lost messages: put before the sentinel %r, written %r" % (before, items))
-    # barrier: complete() returned => everything this process put before invoking it is written
+        if items != due[:len(items)]:
+            bad.append("sink order %r is not the put order %r%s" % (items, due, _err_note(prog)))
+        if len(items) != len(due):
+            bad.append("lost messages: put before the sentinel %r, written %r%s" % (due, items, _err_note(prog)))
+    # barrier: complete() returned => the worker is done with everything this process put before invoking it
     procs = {"t%d" % (i + 1): p for i, p in enumerate(prog["procs"])}
     for tn, j, op, inv, ret, res in run.ops:
         if op[0] == "complete":
@@ -203,17 +285,17 @@ def monitors(run):
             removed_before = any(op2[0] == "remove" and res2 == "ok" and procs[tn2] == procs[tn] and inv2 < ret
                                  for tn2, j2, op2, inv2, ret2, res2 in run.ops)
             for m in mine:
-                if m not in wends or wends[m] > ret:
+                if m not in dealt or dealt[m] > ret:
                     if removed_before and procs[tn] != 0:
                         # known finding F20: the handler was removed in this (non-owner) process before
                         bad.append("KNOWN:C03-complete-after-child-remove complete() of %s returned before %s was "
                                    "written (the child had removed the handler locally)" % (tn, m))
                     else:
-                        bad.append("complete() of %s returned before %s was written" % (tn, m))
+                        bad.append("complete() of %s returned before %s was written%s" % (tn, m, _err_note(prog)))
         if op[0] == "remove" and res == "ok" and procs[tn] == 0:
             for pos, m in puts:
-                if sentinel_pos is not None and pos < sentinel_pos and (m not in wends or wends[m] > ret):
-                    bad.append("owner remove() returned before %s was written" % m)
+                if sentinel_pos is not None and pos < sentinel_pos and (m not in dealt or dealt[m] > ret):
+                    bad.append("owner remove() returned before %s was written%s" % (m, _err_note(prog)))
             for pos, m in wbegins:
                 if pos > ret:
                     bad.append("%s written after the owner's remove() returned" % m)
@@ -224,6 +306,13 @@ def monitors(run):
         bad.append("a child's remove() stopped the owner's sink (%d stops)" % run.sink.stops)
     if not owner_removed and any(kind == "get" and val == "sentinel" for (tn, kind, obj, val) in tr):
         bad.append("the owner's worker thread left its loop although the owner never removed the handler")
+    if not owner_removed:
+        # the worker thread must still be in its loop while anybody can still log: an "exit" of the worker before the
+        # last event of a producer (or before the point at which everybody was blocked) means it died on the way
+        horizon = s.deadlock_pos if s.deadlock and s.deadlock_pos is not None else max(
+            [pos for pos, (tn, kind, obj, val) in enumerate(tr) if tn not in s.daemons] or [0])
+        if any(tn in s.daemons and kind == "exit" and pos < horizon for pos, (tn, kind, obj, val) in enumerate(tr)):
+            bad.append("the owner's worker thread ended although the owner never removed the handler%s" % _err_note(prog))
     return bad
 
 
@@ -262,6 +351,13 @@ def acceptor_lines(run):
                 line = "put msg %d %s" % (int(a[1:]), b)
             else:
                 line = "put " + val
+        elif kind == "putfail":
+            line = "putFail"
+        elif kind == "getraise":
+            line = "getRaise"
+        elif kind == "get" and val.startswith("poison:"):
+            a, b = val[7:].split("-")
+            line = "getFail msg %d %s" % (int(a[1:]), b)
         elif kind == "get":
             if val.startswith("msg:"):
                 a, b = val[4:].split("-")
@@ -279,14 +375,34 @@ def acceptor_lines(run):
         elif kind == "set":
             line = "setEvent"
         elif kind == "wbegin":
-            line = "write"
+            line = "writeFail" if val in prog.get("fail", ()) else "write"
         if line is None:
             continue
         if t in pending:
             out.append("%d %s" % (t, pending.pop(t)))
         out.append("%d %s" % (t, line))
     out.append("sink")
+    out.append("handled")
     return out
+
+
+def real_handled(run):
+    """the worker's log as the trace shows it: (thread, seq, outcome) in the order the worker was done with each message"""
+    refused = set(run.program.get("fail", ()))
+    s = run.sched
+    out = []
+    for (tn, kind, obj, val) in (s.trace[:s.deadlock_pos] if s.deadlock else s.trace):
+        o = None
+        if kind == "wend":
+            o = "w"
+        elif kind == "wbegin" and val in refused:
+            o = "r"
+        elif kind == "get" and val.startswith("poison:"):
+            o, val = "u", val[7:]
+        if o:
+            a, b = val.split("-")
+            out.append("%d:%s:%s" % (int(a[1:]), b, o))
+    return ",".join(out)
 
 
 def dfs(program, bound, limit, on_run):
@@ -323,6 +439,9 @@ def stream_sched(ctx):
         s = r.sched
         ctx.case((json.dumps(program), tuple(s.choices)), nontrivial=(s.preemptions >= 1 and len(program["procs"]) >= 2))
         ctx.stat("sched:" + how)
+        if any(program.get(k) for k in ("fail", "poison", "putfail", "flaky")):
+            ctx.stat("sched:error_paths")
+            ctx.stat("sched:poison_exc:" + str(program.get("poison_exc"))) if program.get("poison") else None
         if _hang_is_expected(r):
             ctx.stat("sched:expected_hang_child_complete_after_owner_remove")
         known = [b for b in bad if b.startswith("KNOWN:")]
@@ -336,8 +455,12 @@ def stream_sched(ctx):
         elif not bad and len(lines) < 400000:
             al = acceptor_lines(r)
             if al:
-                meta.append((program, list(s.choices), len(al), r.sink.items))
+                meta.append((program, list(s.choices), len(al), r.sink.items, real_handled(r)))
                 lines.extend(al)
+                for l in al:
+                    w = l.split(" ")
+                    if len(w) > 1 and w[1] in ("getFail", "writeFail", "putFail", "getRaise"):
+                        ctx.stat("sched:event:" + w[1])
 
     cdir = os.path.join(core.VERIF, "corpus", "C03")
     if os.path.isdir(cdir):
@@ -350,18 +473,27 @@ def stream_sched(ctx):
         if pi < 2:
             ctx.sample({"stream": "sched", "program": prog})
         dfs(prog, ctx.n(2, 3), ctx.n(30, 200), lambda r, prog=prog: judge(r, prog, "dfs"))
+    for pi in range(ctx.n(8, 40) * boost):
+        prog = gen_family_program(rng.fork("f%d" % pi), ctx.quick)
+        dfs(prog, ctx.n(2, 3), ctx.n(30, 200), lambda r, prog=prog: judge(r, prog, "dfs:same_process_family"))
     for i in range(ctx.n(300, 4000) * boost):
         r2 = rng.fork("r%d" % i)
         prog = gen_program(r2, ctx.quick)
         judge(Run(prog, sched.random_chooser(r2, r2.choice([15, 35, 60]))).execute(), prog, "random")
+    for i in range(ctx.n(160, 2500) * boost):
+        r2 = rng.fork("rf%d" % i)
+        prog = gen_family_program(r2, ctx.quick)
+        judge(Run(prog, sched.random_chooser(r2, r2.choice([15, 35, 60]))).execute(), prog, "random:same_process_family")
     if lines:
         out = core.Driver(DRIVER).run(lines)
         pos = 0
-        for program, schedule, n, items in meta:
+        for program, schedule, n, items, handled in meta:
             chunk = out[pos:pos + n]
             ctx.traces_validated += 1
-            rej = [(i, o) for i, o in enumerate(chunk) if not o.startswith("ok") and not o.startswith("sink")]
-            model_sink = chunk[-1][5:] if chunk[-1].startswith("sink") else "?"
+            rej = [(i, o) for i, o in enumerate(chunk) if not o.startswith("ok") and not o.startswith("sink")
+                   and not o.startswith("handled")]
+            model_sink = chunk[-2][5:] if chunk[-2].startswith("sink") else "?"
+            model_handled = chunk[-1][8:] if chunk[-1].startswith("handled") else "?"
             real_sink = ",".join("%d:%s" % (int(m.split("-")[0][1:]), m.split("-")[1]) for m in items)
             if rej:
                 i, o = rej[0]
@@ -371,6 +503,10 @@ def stream_sched(ctx):
             if model_sink != real_sink:
                 ctx.broke("correspondence Queue.sink", "model sink %s, real sink %s\nprogram=%s schedule=%s"
                           % (model_sink, real_sink, json.dumps(program), json.dumps(schedule)))
+                break
+            if model_handled != handled:
+                ctx.broke("correspondence Queue.handled", "model's worker log %s, real %s\nprogram=%s schedule=%s"
+                          % (model_handled, handled, json.dumps(program), json.dumps(schedule)))
                 break
             pos += n
         ctx.stat("acceptor_events", len(lines))
@@ -389,17 +525,25 @@ def stream_mp(ctx):
     for gi, (method, nproc, nthr, k) in enumerate(grid):
         base = tempfile.mkdtemp(prefix="verif_c03_")
         child_remove = rng.chance(50) if gi >= 6 or method != "osfork" else gi == 4
+        # round 5: in about half of the cases some records (of the owner, of the children, or of both) carry an `extra`
+        # object that the worker cannot rebuild: un-pickling raises an exception of a wide pool of classes
+        poison = None
+        if rng.chance(50) or gi in (0, 4):
+            poison = {"exc": rng.choice(sorted(c03_child.LOAD_ERRORS) + ["UnpicklingError"]),
+                      "every": rng.range(2, 4), "who": rng.choice(["child", "owner", "both"])}
         try:
             res = c03_child.isolated_run(method, nproc, nthr, k, os.path.join(base, "out.log"),
-                                       child_remove=child_remove, repo=core.REPO)
+                                       child_remove=child_remove, repo=core.REPO, poison=poison)
         finally:
             shutil.rmtree(base, ignore_errors=True)
         ctx.case(("mp", method, nproc, nthr, k), nontrivial=(nproc >= 2))
         ctx.stat("mp:" + method)
         ctx.stat("mp:child_remove" if child_remove else "mp:child_keeps_handler")
+        if poison:
+            ctx.stat("mp:unloadable:" + poison["exc"])
         if res["bad"]:
             ctx.violation(res["bad"][0], {"stream": "mp", "method": method, "nproc": nproc, "nthr": nthr, "k": k,
-                                          "child_remove": child_remove,
+                                          "child_remove": child_remove, "poison": poison,
                                           "violations": res["bad"][:5]})
             break
     ctx.sample({"stream": "mp", "grid": grid[:4]})
@@ -516,6 +660,175 @@ def stream_two_loops(ctx):
             break
 
 
+def stream_enq_async(ctx):
+    """a handler that is BOTH enqueue=True and a coroutine sink (loop= given): the worker thread turns each queued message
+    into a task of the loop; `await logger.complete()` must wait for the queue (complete_queue) and THEN for the tasks of
+    everything logged before it (Queue/EnqAsync.lean: enqueued_async_complete_waits)"""
+    import loguru._logger as lg
+    rng = ctx.rng.fork("enqaio")
+    for ci in range(ctx.n(8, 150)):
+        r = rng.fork("c%d" % ci)
+        nthr, nmsg, own, spin, rounds = r.range(0, 2), r.range(1, 6), r.range(1, 6), r.range(0, 3), r.range(1, 2)
+        written, bad = [], []
+
+        async def sink(message, spin=spin):
+            for _ in range(spin):
+                await asyncio.sleep(0)
+            written.append(str(message).strip())
+
+        async def main():
+            loop = asyncio.get_running_loop()
+            logger = lg.Logger(core=lg.Core(), exception=None, depth=0, record=False, lazy=False, colors=False,
+                               raw=False, capture=True, patchers=[], extra={})
+            hid = logger.add(sink, enqueue=True, loop=loop, format="{message}", catch=False)
+            ths = [threading.Thread(target=lambda j=j: [logger.info("T%d-%d" % (j, i)) for i in range(nmsg)], daemon=True)
+                   for j in range(nthr)]
+            for t in ths:
+                t.start()
+            for rd in range(rounds):
+                mine = ["M%d-%d" % (rd, i) for i in range(own)]
+                for m in mine:
+                    logger.info(m)
+                await asyncio.wait_for(logger.complete(), 15)
+                missing = [m for m in mine if m not in written]
+                if missing:
+                    bad.append("enqueue=True + coroutine sink: `await logger.complete()` returned before the tasks of %r "
+                               "(logged before the call in the same coroutine) had run; written so far %r"
+                               % (missing, list(written)))
+                    break
+            for t in ths:
+                t.join(10)
+            await asyncio.wait_for(logger.complete(), 15)
+            allm = sorted(["T%d-%d" % (j, i) for j in range(nthr) for i in range(nmsg)] +
+                          ["M%d-%d" % (rd, i) for rd in range(rounds) for i in range(own)])
+            if not bad and sorted(written) != allm:
+                bad.append("enqueue=True + coroutine sink: after the final `await logger.complete()` the sink ran for %r, "
+                           "expected %r" % (sorted(written), allm))
+            logger.remove(hid)
+
+        def runner():
+            try:
+                asyncio.run(main())
+            except asyncio.TimeoutError:
+                bad.append("enqueue=True + coroutine sink: awaiting complete() did not finish within 15 s")
+        th = threading.Thread(target=runner, daemon=True)
+        th.start()
+        th.join(40)
+        if th.is_alive():
+            bad.append("enqueue=True + coroutine sink: the program (log, await complete(), remove) did not end within 40 s")
+        ctx.case(("enqaio", nthr, nmsg, own, spin, rounds), nontrivial=True)
+        ctx.stat("asyncio:enqueued")
+        if bad:
+            ctx.violation(bad[0], {"stream": "enq_async", "nthr": nthr, "nmsg": nmsg, "own": own, "spin": spin,
+                                   "rounds": rounds, "violations": bad})
+            break
+
+
+def stream_multi_handler(ctx):
+    """several handlers on one logger (enqueue=True ones with slow or refusing sinks next to plain ones): complete() is a
+    barrier for EVERY enqueue handler, remove(id) of one drains exactly that one and leaves the others working, a
+    refusing sink costs only its own messages; real threads, real queues"""
+    import time as _time
+    import loguru._logger as lg
+    rng = ctx.rng.fork("multi")
+    for ci in range(ctx.n(8, 120)):
+        r = rng.fork("c%d" % ci)
+        nh = r.range(2, 4)
+        kinds = [r.choice(["enq", "enq", "enq-slow", "enq-refusing", "plain"]) for _ in range(nh)]
+        if not any(k.startswith("enq") for k in kinds):
+            kinds[0] = "enq-slow"
+        nthr, nmsg = r.range(1, 3), r.range(2, 6)
+        refuse_mod = r.range(2, 3)
+        sinks = [[] for _ in range(nh)]
+        bad = []
+
+        def mk(i, kind):
+            def sink(m):
+                text = str(m).strip()
+                if kind == "enq-slow":
+                    _time.sleep(0.001)
+                if kind == "enq-refusing" and int(text.rsplit("-", 1)[1]) % refuse_mod == 0:
+                    raise ValueError("sink %d refuses %s" % (i, text))
+                sinks[i].append(text)
+            return sink
+        logger = lg.Logger(core=lg.Core(), exception=None, depth=0, record=False, lazy=False, colors=False, raw=False,
+                           capture=True, patchers=[], extra={})
+        import io
+        import contextlib
+        err = io.StringIO()
+        ids = [logger.add(mk(i, k), enqueue=k.startswith("enq"), format="{message}", catch=True) for i, k in enumerate(kinds)]
+        done = threading.Event()
+        victim = r.below(nh)
+
+        def expected(i, msgs):
+            if kinds[i] == "enq-refusing":
+                return [m for m in msgs if int(m.rsplit("-", 1)[1]) % refuse_mod != 0]
+            return list(msgs)
+
+        def producer(j, views):
+            mine = []
+            for i in range(nmsg):
+                logger.info("T%d-%d" % (j, i))
+                mine.append("T%d-%d" % (j, i))
+            logger.complete()
+            views[j] = (mine, [list(sk) for sk in sinks])
+
+        def work():
+            with contextlib.redirect_stderr(err):
+                views = {}
+                ths = [threading.Thread(target=producer, args=(j, views), daemon=True) for j in range(nthr)]
+                for t in ths:
+                    t.start()
+                for t in ths:
+                    t.join(20)
+                for j, (mine, snap) in sorted(views.items()):
+                    for i in range(nh):
+                        missing = [m for m in expected(i, mine) if m not in snap[i]]
+                        if missing:
+                            bad.append("handlers %r: complete() of thread %d returned before handler %d (%s) had written %r"
+                                       % (kinds, j, i, kinds[i], missing))
+                if len(views) != nthr:
+                    bad.append("handlers %r: complete() did not return within 20 s in %d thread(s)" % (kinds, nthr - len(views)))
+                    done.set()
+                    return
+                logger.info("X-1")
+                logger.remove(ids[victim])
+                at_remove = list(sinks[victim])
+                logger.info("Y-1")
+                logger.complete()
+                allm = ["T%d-%d" % (j, i) for j in range(nthr) for i in range(nmsg)]
+                if sorted(at_remove) != sorted(expected(victim, allm + ["X-1"])):
+                    bad.append("handlers %r: when remove(%d) returned its sink (%s) held %r, expected %r"
+                               % (kinds, victim, kinds[victim], sorted(at_remove), sorted(expected(victim, allm + ["X-1"]))))
+                if sinks[victim] != at_remove:
+                    bad.append("handlers %r: the removed handler %d wrote %r after remove() returned"
+                               % (kinds, victim, sinks[victim][len(at_remove):]))
+                for i in range(nh):
+                    if i != victim and sorted(sinks[i]) != sorted(expected(i, allm + ["X-1", "Y-1"])):
+                        bad.append("handlers %r: after removing handler %d and a further complete(), handler %d (%s) holds "
+                                   "%r, expected %r" % (kinds, victim, i, kinds[i], sorted(sinks[i]),
+                                                        sorted(expected(i, allm + ["X-1", "Y-1"]))))
+                    for j in range(nthr):
+                        seq = [m for m in sinks[i] if m.startswith("T%d-" % j)]
+                        if seq != sorted(seq, key=lambda m: int(m.rsplit("-", 1)[1])):
+                            bad.append("handlers %r: handler %d wrote the messages of thread %d out of order: %r"
+                                       % (kinds, i, j, seq))
+                logger.remove()
+            done.set()
+        th = threading.Thread(target=work, daemon=True)
+        th.start()
+        if not done.wait(60):
+            bad.append("handlers %r: the program (log from %d threads, complete, remove one, log, complete, remove all) "
+                       "did not end within 60 s" % (kinds, nthr))
+        ctx.case(("multi", tuple(kinds), nthr, nmsg, victim), nontrivial=True)
+        for k in kinds:
+            ctx.stat("multi:" + k)
+        if bad:
+            ctx.violation(bad[0], {"stream": "multi_handler", "kinds": kinds, "nthr": nthr, "nmsg": nmsg, "victim": victim,
+                                   "refuse_mod": refuse_mod, "violations": bad[:5]})
+            break
+
+
 def stream_shapes(ctx):
     """message shapes the queue items could be confused with: empty text, texts equal to str(None)/str(True),
     falsy/odd payloads – every accepted message must be written, complete() and remove() must return"""
@@ -596,7 +909,23 @@ _ERRS = {"PicklingError": pickle.PicklingError, "TypeError": TypeError, "Attribu
          "ValueError": ValueError, "RuntimeError": RuntimeError, "NotImplementedError": NotImplementedError,
          "KeyError": KeyError, "OSError": OSError, "ZeroDivisionError": ZeroDivisionError,
          "RecursionError": RecursionError, "UnpicklingError": pickle.UnpicklingError, "EOFError": EOFError,
-         "custom": _HarnessError}
+         "custom": _HarnessError,
+         # round 5: the OSError family and further Exception subclasses a reconstruction can raise
+         "FileNotFoundError": FileNotFoundError, "ConnectionResetError": ConnectionResetError,
+         "BrokenPipeError": BrokenPipeError, "PermissionError": PermissionError, "TimeoutError": TimeoutError,
+         "ImportError": ImportError, "ModuleNotFoundError": ModuleNotFoundError, "MemoryError": MemoryError,
+         "StopIteration": StopIteration, "AssertionError": AssertionError, "LookupError": LookupError,
+         "BufferError": BufferError}
+
+
+class _UnloadableExtra:
+    """an object for `extra` that pickles fine but whose un-pickling (in the worker's `queue.get()`) raises"""
+
+    def __init__(self, err):
+        self.err = err
+
+    def __reduce__(self):
+        return (_fail_loading, (self.err,))
 
 
 def _picklable(o):
@@ -624,6 +953,13 @@ def _payload(rng):
     return ("%s:%s" % (how, err), _Boom(how, err))
 
 
+def _xload(rng):
+    """a record the WORKER cannot rebuild: its `extra` holds an object whose un-pickling raises (any Exception class);
+    `queue.get()` raises in the worker, the message is reported and skipped - and nothing else may be lost"""
+    err = rng.choice(sorted(_ERRS))
+    return ("xload:%s" % err, _UnloadableExtra(err))
+
+
 def stream_payloads(ctx):
     """every accepted message is written exactly once and in order whatever exception value its record carries:
     the value may refuse to be pickled or unpickled with ANY Exception class (the record then arrives without it)"""
@@ -636,13 +972,17 @@ def stream_payloads(ctx):
 
     fixed = [("local-class", _local()), ("dumps:ValueError", _Boom("dumps", "ValueError")),
              ("dumps:RuntimeError", _Boom("dumps", "RuntimeError")), ("loads:KeyError", _Boom("loads", "KeyError")),
-             ("deep", _Boom("deep", "-")), ("plain", ValueError("plain")), ("none", None)]
+             ("deep", _Boom("deep", "-")), ("plain", ValueError("plain")), ("none", None),
+             ("xload:FileNotFoundError", _UnloadableExtra("FileNotFoundError")), ("none", None),
+             ("xload:EOFError", _UnloadableExtra("EOFError")), ("xload:KeyError", _UnloadableExtra("KeyError")),
+             ("plain", ValueError("after the unreadable records")), ("none", None)]
     for ci in range(ctx.n(12, 150)):
         r0 = rng.fork("c%d" % ci)
         if ci == 0:
             items = fixed            # regression case (F28 and one of every failure class) runs first
         else:
-            items = [_payload(r0) if r0.chance(75) else ("none", None) for _ in range(r0.range(2, 6))]
+            items = [(_xload(r0) if r0.chance(25) else _payload(r0)) if r0.chance(75) else ("none", None)
+                     for _ in range(r0.range(2, 7))]
         got = []
         logger = lg.Logger(core=lg.Core(), exception=None, depth=0, record=False, lazy=False, colors=False, raw=False,
                            capture=True, patchers=[], extra={})
@@ -662,6 +1002,8 @@ def stream_payloads(ctx):
                     try:
                         if exc is None:
                             logger.info("m%d" % i)
+                        elif kind.startswith("xload:"):
+                            logger.bind(handle=exc).info("m%d" % i)
                         else:
                             logger.opt(exception=exc).info("m%d" % i)
                     except BaseException as e:       # catch=False: a failing put reaches the caller
@@ -676,14 +1018,14 @@ def stream_payloads(ctx):
         else:
             if raised:
                 bad.append("logging call %d (exception payload %s) raised %s" % raised[0])
-            want = ["m%d" % i for i in range(len(items))]
+            want = ["m%d" % i for i in range(len(items)) if not items[i][0].startswith("xload:")]
             if [m for m, _ in got] != want:
                 bad.append("enqueue handler wrote %r for the accepted messages %r (exception payloads %r)%s"
                            % ([m for m, _ in got], want, desc,
                               "; reported on stderr: " + err.getvalue().strip().splitlines()[-1][:120]
                               if err.getvalue().strip() else ""))
             else:
-                for (m, rexc), (kind, exc) in zip(got, items):
+                for (m, rexc), (kind, exc) in zip(got, [it for it in items if not it[0].startswith("xload:")]):
                     if (exc is None) != (rexc is None):
                         bad.append("message %s: record['exception'] is %r for payload %s" % (m, rexc, kind))
                     elif exc is not None and rexc.type is not type(exc) and not (rexc.type is None and not _picklable(type(exc))):
@@ -842,7 +1184,8 @@ def stream_exit(ctx):
 
 
 def run(ctx):
-    for stream in (stream_shapes, stream_payloads, stream_worker_errors, stream_exit, stream_sched, stream_mp, stream_asyncio, stream_two_loops):
+    for stream in (stream_shapes, stream_payloads, stream_worker_errors, stream_exit, stream_sched, stream_mp, stream_asyncio, stream_two_loops,
+                   stream_enq_async, stream_multi_handler):
         stream(ctx)
         if ctx.violations and getattr(ctx, "search_boost", False):
             return           # enlarged search after a broken obligation: a failing input has been found
@@ -861,7 +1204,8 @@ def replay(ctx, rep):
         base = tempfile.mkdtemp(prefix="verif_c03_")
         try:
             bad = c03_child.isolated_run(r["method"], r["nproc"], r["nthr"], r["k"], os.path.join(base, "o.log"),
-                                       child_remove=r.get("child_remove", True), repo=core.REPO)["bad"]
+                                       child_remove=r.get("child_remove", True), repo=core.REPO,
+                                       poison=r.get("poison"))["bad"]
         finally:
             shutil.rmtree(base, ignore_errors=True)
     elif r.get("stream") == "exit":
